@@ -106,6 +106,7 @@ def _run_case(ctx, case):
                     nontrivial = True
             # the same molecule listed as a V2000 connection table (fixed columns; labels in M  CHG/RAD/ISO lines of 1..8 entries)
             m3, perm = G.relabel(mol, rng)
+            m3.bonds = [(i, j, t if 1 <= t <= 8 else 1) for i, j, t in m3.bonds]  # bond type is non-identity data; V2000 knows 1..8
             if ctab.v2000_representable(m3):
                 st = ctab.V2Style(encoding=rng.choice(["lines", "lines", "codes", "stale"]), per_line=rng.randint(1, 8), dt_symbols=rng.random() < 0.5,
                                   shuffle_entries=rng.random() < 0.5, interleave=rng.random() < 0.5)
